@@ -13,8 +13,10 @@ git diff -- . ':(exclude)*/tests/seeded_demo.rs' > /tmp/mut/$id.patch
 [ -s /tmp/mut/$id.patch ] || { echo "REJECTED $id: empty patch"; exit 1; }
 democmd="cargo test --offline -p $pkg --test seeded_demo"
 $democmd > /tmp/mut/$id.with.log 2>&1; rc_with=$?
+mv "$demo" /tmp/mut/$id.demo.rs   # the demonstration is not part of the existing suite
 cargo test --offline -p toktrie -p toktrie_hf_tokenizers --no-fail-fast > /tmp/mut/$id.suite.log 2>&1; rc_s1=$?
 cargo test --offline -p llguidance --lib >> /tmp/mut/$id.suite.log 2>&1; rc_s2=$?
+mv /tmp/mut/$id.demo.rs "$demo"
 git apply -R /tmp/mut/$id.patch || { echo "REJECTED $id: cannot reverse patch"; exit 1; }
 $democmd > /tmp/mut/$id.without.log 2>&1; rc_without=$?
 git apply /tmp/mut/$id.patch
